@@ -67,3 +67,19 @@ def binary_group(push='vx_sink_push', widths=(16, 32, 64), little=False):
             g.append(native_to_little(b, push))
             g.append(little_to_native(b))
     return g
+
+
+def byte_swap_float(bits):
+    # the two floating-point overloads of byte_swap come after the four integral ones and before the 128-bit one
+    return FuncSpec('byte_swap_f%d' % bits, BIN, r'\bbyte_swap\s*\(T val\)', ordinal={32: 4, 64: 5}[bits],
+                    csig='static %s byte_swap_f%d(%s val)' % ({32: 'float', 64: 'double'}[bits], bits, {32: 'float', 64: 'double'}[bits]),
+                    rules=[(r'\bT val2;', '%s val2;' % {32: 'float', 64: 'double'}[bits], 1),
+                           (r'byte_swap\(x\)', 'byte_swap_u%d(x)' % bits, 1)])
+
+
+def big_to_native_float(bits):
+    t = {32: 'float', 64: 'double'}[bits]
+    return FuncSpec('big_to_native_f%d' % bits, BIN, r'\bbig_to_native\s*\(const uint8_t\* first, std::size_t count\)', ordinal=1, count=2,
+                    csig='static %s big_to_native_f%d(const uint8_t* first, size_t count)' % (t, bits),
+                    rules=[(r'\bT val;', '%s val;' % t, 1), (r'\bbyte_swap\(', 'byte_swap_f%d(' % bits, 1), (r'return T\{\};', 'return 0;', 1),
+                           (r'sizeof\(T\)', 'sizeof(%s)' % t, 2)])
